@@ -106,3 +106,334 @@ Proof.
   - exfalso. apply H3; [lia|]. apply bytes_eqb_eq. exact ES.
   - specialize (H2 ltac:(lia)). apply bytes_eqb_neq in H2. rewrite H2. reflexivity.
 Qed.
+(* the 16 fixed bytes of a v2 header *)
+Definition hdr16 (vercmd fam l0 l1 : Z) : bytes := SIG12 ++ [vercmd; fam; l0; l1].
+
+Lemma v2_header_split vercmd fam addr tlvs rest :
+  v2_header vercmd fam addr tlvs ++ rest =
+  hdr16 vercmd fam (((zlen addr + zlen tlvs) / 256) mod 256) ((zlen addr + zlen tlvs) mod 256) ++ ((addr ++ tlvs) ++ rest).
+Proof. unfold v2_header, hdr16, put_u16. rewrite <- !app_assoc. reflexivity. Qed.
+
+Lemma parse_proxy_v2_hdr hn vercmd fam l0 l1 x :
+  parse_proxy_with hn (hdr16 vercmd fam l0 l1 ++ x) = parse_v2 hn (hdr16 vercmd fam l0 l1 ++ x).
+Proof.
+  unfold parse_proxy_with.
+  assert (zlen (hdr16 vercmd fam l0 l1 ++ x) = 16 + zlen x) as L by (rewrite zlen_app; reflexivity).
+  pose proof (zlen_nonneg x).
+  replace (zlen (hdr16 vercmd fam l0 l1 ++ x) <? 5) with false by lia.
+  replace (zlen (hdr16 vercmd fam l0 l1 ++ x) <? 12) with false by lia.
+  reflexivity.
+Qed.
+
+Lemma ztake16_hdr vercmd fam l0 l1 (x : bytes) : ztake 16 (hdr16 vercmd fam l0 l1 ++ x) = hdr16 vercmd fam l0 l1.
+Proof. change 16 with (zlen (hdr16 vercmd fam l0 l1)). apply ztake_app. Qed.
+Lemma zdrop16_hdr vercmd fam l0 l1 (x : bytes) : zdrop 16 (hdr16 vercmd fam l0 l1 ++ x) = x.
+Proof. change 16 with (zlen (hdr16 vercmd fam l0 l1)). apply zdrop_app. Qed.
+
+Lemma parse_v2_hdr hn vercmd fam l0 l1 payload rest :
+  be16 l0 l1 = zlen payload ->
+  parse_v2 hn (hdr16 vercmd fam l0 l1 ++ (payload ++ rest)) =
+    if vercmd mod 16 =? 0 then (Ok PLocal, rest) else
+    let family := if hn then fam / 16 else fam mod 16 in
+    if family =? 1 then (parse_inet payload, rest)
+    else if family =? 2 then (parse_inet6 payload, rest)
+    else (Ok PNone, rest).
+Proof.
+  intros HL. unfold parse_v2.
+  assert (zlen (hdr16 vercmd fam l0 l1 ++ (payload ++ rest)) = 16 + zlen (payload ++ rest)) as L by (rewrite zlen_app; reflexivity).
+  pose proof (zlen_nonneg (payload ++ rest)). pose proof (zlen_nonneg payload).
+  replace (zlen (hdr16 vercmd fam l0 l1 ++ (payload ++ rest)) <? 16) with false by lia.
+  rewrite ztake16_hdr, zdrop16_hdr.
+  change (gslice (hdr16 vercmd fam l0 l1) 0 12) with (Ok SIG12).
+  change (negb (bytes_eqb SIG12 SIG12)) with false. cbv iota.
+  change (nth 12 (hdr16 vercmd fam l0 l1) 0) with vercmd.
+  change (nth 13 (hdr16 vercmd fam l0 l1) 0) with fam.
+  change (nth 14 (hdr16 vercmd fam l0 l1) 0) with l0.
+  change (nth 15 (hdr16 vercmd fam l0 l1) 0) with l1.
+  rewrite HL. replace (zlen payload <? 0) with false by lia.
+  rewrite zlen_app. pose proof (zlen_nonneg rest).
+  replace (zlen payload + zlen rest <? zlen payload) with false by lia.
+  rewrite ztake_app, zdrop_app. reflexivity.
+Qed.
+
+Lemma gslice_at (a m b : bytes) lo hi : lo = zlen a -> hi = lo + zlen m -> gslice (a ++ m ++ b) lo hi = Ok m.
+Proof.
+  intros -> ->. pose proof (zlen_nonneg a). pose proof (zlen_nonneg m). pose proof (zlen_nonneg b).
+  rewrite gslice_ok; [|lia|lia|rewrite !zlen_app; lia].
+  rewrite zdrop_app. replace (zlen a + zlen m - zlen a) with (zlen m) by lia. rewrite ztake_app. reflexivity.
+Qed.
+
+Lemma gslice_head (m b : bytes) hi : hi = zlen m -> gslice (m ++ b) 0 hi = Ok m.
+Proof. intros H. apply (gslice_at [] m b 0 hi); [reflexivity|lia]. Qed.
+
+Lemma port_at_put (a b : bytes) v i : i = zlen a -> 0 <= v < 65536 -> port_at (a ++ put_u16 v ++ b) i = Ok v.
+Proof.
+  intros Hi Hv. unfold port_at. rewrite (gslice_at a (put_u16 v) b i (i + 2) Hi) by (rewrite zlen_put_u16; lia).
+  cbn [bind put_u16]. rewrite be16_put_u16 by exact Hv. reflexivity.
+Qed.
+
+Lemma parse_inet_addr src dst sp dp tlvs :
+  zlen src = 4 -> zlen dst = 4 -> 0 <= sp < 65536 -> 0 <= dp < 65536 ->
+  parse_inet (v2_addr src dst sp dp ++ tlvs) = Ok (PV2 src dst sp dp).
+Proof.
+  intros Hs Hd Hsp Hdp. unfold parse_inet, v2_addr. pose proof (zlen_nonneg tlvs).
+  replace (zlen ((src ++ dst ++ put_u16 sp ++ put_u16 dp) ++ tlvs) <? 12) with false
+    by (rewrite !zlen_app, !zlen_put_u16; lia).
+  rewrite <- !app_assoc.
+  rewrite (gslice_head src _ 4) by lia. cbn [bind].
+  rewrite (gslice_at src dst _ 4 8) by lia. cbn [bind].
+  rewrite (app_assoc src dst). rewrite (port_at_put (src ++ dst) _ sp 8) by (rewrite ?zlen_app; lia). cbn [bind].
+  rewrite (app_assoc (src ++ dst) (put_u16 sp)).
+  rewrite (port_at_put ((src ++ dst) ++ put_u16 sp) _ dp 10) by (rewrite ?zlen_app, ?zlen_put_u16; lia).
+  reflexivity.
+Qed.
+
+Lemma parse_inet6_addr src dst sp dp tlvs :
+  zlen src = 16 -> zlen dst = 16 -> 0 <= sp < 65536 -> 0 <= dp < 65536 ->
+  parse_inet6 (v2_addr src dst sp dp ++ tlvs) = Ok (PV2 src dst sp dp).
+Proof.
+  intros Hs Hd Hsp Hdp. unfold parse_inet6, v2_addr. pose proof (zlen_nonneg tlvs).
+  replace (zlen ((src ++ dst ++ put_u16 sp ++ put_u16 dp) ++ tlvs) <? 36) with false
+    by (rewrite !zlen_app, !zlen_put_u16; lia).
+  rewrite <- !app_assoc.
+  rewrite (gslice_head src _ 16) by lia. cbn [bind].
+  rewrite (gslice_at src dst _ 16 32) by lia. cbn [bind].
+  rewrite (app_assoc src dst). rewrite (port_at_put (src ++ dst) _ sp 32) by (rewrite ?zlen_app; lia). cbn [bind].
+  rewrite (app_assoc (src ++ dst) (put_u16 sp)).
+  rewrite (port_at_put ((src ++ dst) ++ put_u16 sp) _ dp 34) by (rewrite ?zlen_app, ?zlen_put_u16; lia).
+  reflexivity.
+Qed.
+
+(* one statement for every v2 header: command LOCAL / PROXY, family INET / INET6 /
+   anything else (UNSPEC, UNIX), any TLV bytes, any trailing stream *)
+Definition v2_expected (vercmd fam : Z) (addr : bytes) (info : pinfo) : Prop :=
+  (vercmd mod 16 = 0 /\ info = PLocal) \/
+  (vercmd mod 16 <> 0 /\ fam / 16 <> 1 /\ fam / 16 <> 2 /\ info = PNone) \/
+  (vercmd mod 16 <> 0 /\ exists src dst sp dp,
+      addr = v2_addr src dst sp dp /\ 0 <= sp < 65536 /\ 0 <= dp < 65536 /\ info = PV2 src dst sp dp /\
+      ((fam / 16 = 1 /\ zlen src = 4 /\ zlen dst = 4) \/ (fam / 16 = 2 /\ zlen src = 16 /\ zlen dst = 16))).
+
+Theorem v2_exact vercmd fam addr tlvs info rest :
+  zlen addr + zlen tlvs < 65536 ->
+  v2_expected vercmd fam addr info ->
+  parse_proxy (v2_header vercmd fam addr tlvs ++ rest) = (Ok info, rest).
+Proof.
+  intros HL HE. unfold parse_proxy. rewrite v2_header_split, parse_proxy_v2_hdr.
+  pose proof (zlen_nonneg addr). pose proof (zlen_nonneg tlvs).
+  rewrite parse_v2_hdr by (rewrite be16_put_u16, zlen_app; lia).
+  destruct HE as [[Hc ->]|[(Hc & F1 & F2 & ->)|(Hc & src & dst & sp & dp & -> & Hsp & Hdp & -> & HF)]].
+  - replace (vercmd mod 16 =? 0) with true by lia. reflexivity.
+  - replace (vercmd mod 16 =? 0) with false by lia. cbv zeta.
+    replace (fam / 16 =? 1) with false by lia. replace (fam / 16 =? 2) with false by lia. reflexivity.
+  - replace (vercmd mod 16 =? 0) with false by lia. cbv zeta.
+    destruct HF as [(F & Ls & Ld)|(F & Ls & Ld)].
+    + replace (fam / 16 =? 1) with true by lia. rewrite parse_inet_addr by assumption. reflexivity.
+    + replace (fam / 16 =? 1) with false by lia. replace (fam / 16 =? 2) with true by lia.
+      rewrite parse_inet6_addr by assumption. reflexivity.
+Qed.
+
+(* the unpatched code (family from the low nibble) misreports a TCP-over-IPv6 header *)
+Lemma v2_low_nibble_refuted :
+  exists src dst sp dp rest,
+    zlen src = 16 /\ zlen dst = 16 /\
+    fst (parse_proxy_with false (v2_header 33 33 (v2_addr src dst sp dp) [] ++ rest)) <> Ok (PV2 src dst sp dp).
+Proof.
+  exists [32;1;13;184;0;0;0;0;0;0;0;0;0;0;0;1], [32;1;13;184;0;0;0;0;0;0;0;0;0;0;0;2], 40000, 9092, [1;2;3].
+  split; [reflexivity|]. split; [reflexivity|]. vm_compute. discriminate.
+Qed.
+Definition printable (b : Z) : bool := (33 <=? b) && (b <=? 126).
+
+Lemma space_len_printable b r : printable b = true -> space_len (b :: r) = O.
+Proof.
+  unfold printable. intros H. unfold space_len.
+  replace (((9 <=? b) && (b <=? 13)) || (b =? 32)) with false by lia.
+  replace (b =? 194) with false by lia. replace (b =? 225) with false by lia.
+  replace (b =? 226) with false by lia. replace (b =? 227) with false by lia.
+  cbn [andb]. destruct r as [|b1 [|b2 r]]; reflexivity.
+Qed.
+
+Lemma fields_aux_token w : forall rest cur acc,
+  forallb printable w = true ->
+  fields_aux (w ++ rest) O cur acc = fields_aux rest O (rev w ++ cur) acc.
+Proof.
+  induction w as [|b w IH]; intros rest cur acc H; [reflexivity|].
+  cbn [forallb] in H. apply andb_true_iff in H as [Hb Hw].
+  cbn [app fields_aux]. change (b :: w ++ rest) with (b :: (w ++ rest)).
+  rewrite space_len_printable by exact Hb. rewrite IH by exact Hw.
+  cbn [rev]. rewrite <- app_assoc. reflexivity.
+Qed.
+
+Lemma fields_aux_sp rest cur acc :
+  fields_aux (32 :: rest) O cur acc = fields_aux rest O [] (flush cur acc).
+Proof. reflexivity. Qed.
+
+Lemma fields_aux_crlf cur acc : fields_aux CRLF O cur acc = rev (flush cur acc).
+Proof. reflexivity. Qed.
+
+Lemma flush_token w acc : w <> [] -> flush (rev w ++ []) acc = w :: acc.
+Proof.
+  intros H. rewrite app_nil_r. unfold flush. destruct (rev w) eqn:E.
+  - exfalso. apply H. rewrite <- (rev_involutive w), E. reflexivity.
+  - rewrite <- E, rev_involutive. reflexivity.
+Qed.
+
+Lemma tokenb_spec f : tokenb f = true -> f <> [] /\ forallb printable f = true.
+Proof.
+  unfold tokenb. intros H. apply andb_true_iff in H as [H1 H2]. split.
+  - destruct f; [discriminate|congruence].
+  - exact H2.
+Qed.
+
+(* token followed by one space: the token is flushed *)
+Lemma fields_aux_token_sp w rest acc : tokenb w = true ->
+  fields_aux (w ++ SP ++ rest) O [] acc = fields_aux rest O [] (w :: acc).
+Proof.
+  intros H. apply tokenb_spec in H as [Hn Hp].
+  rewrite fields_aux_token by exact Hp. cbn [SP app]. rewrite fields_aux_sp, flush_token by exact Hn. reflexivity.
+Qed.
+
+Lemma fields_v1_line proto sip dip sp dp :
+  tokenb proto = true -> tokenb sip = true -> tokenb dip = true -> tokenb sp = true -> tokenb dp = true ->
+  fields (v1_line proto sip dip sp dp) = [PROXY5; proto; sip; dip; sp; dp].
+Proof.
+  intros H1 H2 H3 H4 H5. unfold fields, v1_line.
+  rewrite (fields_aux_token_sp PROXY5) by reflexivity.
+  rewrite !fields_aux_token_sp by assumption.
+  apply tokenb_spec in H5 as [Hn Hp].
+  rewrite fields_aux_token by exact Hp. rewrite fields_aux_crlf, flush_token by exact Hn. reflexivity.
+Qed.
+
+(* read_line returns the line up to and including the first LF *)
+Lemma read_line_lf l : forall room acc rest,
+  ~ In 10 l -> (length l < room)%nat ->
+  read_line (l ++ 10 :: rest) room acc = (Ok (rev acc ++ l ++ [10]), rest).
+Proof.
+  induction l as [|b l IH]; intros room acc rest Hn Hr.
+  - destruct room; [cbn in Hr; lia|]. cbn [app read_line]. cbn [Z.eqb Pos.eqb rev]. reflexivity.
+  - destruct room; [cbn in Hr; lia|]. cbn [app read_line].
+    replace (b =? 10) with false by (cbn [In] in Hn; lia).
+    rewrite IH; [|cbn [In] in Hn; tauto|cbn [length] in Hr; lia].
+    cbn [rev]. rewrite <- app_assoc. reflexivity.
+Qed.
+
+Lemma printable_no_lf w : forallb printable w = true -> ~ In 10 w /\ ~ In 13 w /\ ~ In 32 w.
+Proof.
+  intros H. rewrite forallb_forall in H. repeat split; intros Hin; apply H in Hin; discriminate.
+Qed.
+
+Definition v1_body (proto sip dip sp dp : bytes) : bytes :=
+  PROXY5 ++ SP ++ proto ++ SP ++ sip ++ SP ++ dip ++ SP ++ sp ++ SP ++ dp ++ [13].
+
+Lemma v1_line_body proto sip dip sp dp rest :
+  v1_line proto sip dip sp dp ++ rest = v1_body proto sip dip sp dp ++ 10 :: rest.
+Proof. unfold v1_line, v1_body, CRLF. rewrite <- !app_assoc. reflexivity. Qed.
+
+Lemma v1_line_body' proto sip dip sp dp :
+  v1_line proto sip dip sp dp = v1_body proto sip dip sp dp ++ [10].
+Proof. unfold v1_line, v1_body, CRLF. rewrite <- !app_assoc. reflexivity. Qed.
+
+Lemma proxy5_prefix (x : bytes) : ztake 5 (PROXY5 ++ x) = PROXY5.
+Proof. change 5 with (zlen PROXY5). apply ztake_app. Qed.
+
+Lemma parse_proxy_v1_prefix hn x : parse_proxy_with hn (PROXY5 ++ x) = parse_v1 (PROXY5 ++ x).
+Proof.
+  unfold parse_proxy_with. pose proof (zlen_nonneg x).
+  replace (zlen (PROXY5 ++ x) <? 5) with false by (rewrite zlen_app; change (zlen PROXY5) with 5; lia).
+  rewrite proxy5_prefix. reflexivity.
+Qed.
+
+Theorem v1_exact proto sip dip sp dp rest :
+  tokenb proto = true -> tokenb sip = true -> tokenb dip = true -> tokenb sp = true -> tokenb dp = true ->
+  is_unknown proto = false ->
+  zlen (v1_line proto sip dip sp dp) <= 256 ->
+  parse_proxy (v1_line proto sip dip sp dp ++ rest) =
+    (Ok (PV1 sip dip sp dp (join_host_port sip sp) (join_host_port dip dp) (atoi_or_zero sp) (atoi_or_zero dp)), rest).
+Proof.
+  intros H1 H2 H3 H4 H5 HU HL.
+  pose proof (fields_v1_line proto sip dip sp dp H1 H2 H3 H4 H5) as HF.
+  unfold parse_proxy. rewrite v1_line_body.
+  unfold v1_body at 1. rewrite <- app_assoc. rewrite parse_proxy_v1_prefix. rewrite app_assoc.
+  fold (v1_body proto sip dip sp dp) || idtac.
+  unfold parse_v1.
+  replace (PROXY5 ++ (SP ++ proto ++ SP ++ sip ++ SP ++ dip ++ SP ++ sp ++ SP ++ dp ++ [13])) with (v1_body proto sip dip sp dp) by reflexivity.
+  rewrite read_line_lf.
+  - cbn [rev app]. rewrite <- v1_line_body'. unfold parse_v1_line. rewrite HF. rewrite HU. reflexivity.
+  - unfold v1_body. rewrite !in_app_iff.
+    destruct (tokenb_spec _ H1) as [_ P1]. destruct (tokenb_spec _ H2) as [_ P2].
+    destruct (tokenb_spec _ H3) as [_ P3]. destruct (tokenb_spec _ H4) as [_ P4].
+    destruct (tokenb_spec _ H5) as [_ P5].
+    apply printable_no_lf in P1, P2, P3, P4, P5.
+    unfold PROXY5, SP. cbn [In]. intuition lia.
+  - rewrite v1_line_body' in HL. rewrite zlen_app in HL. unfold zlen in HL. cbn [length] in HL. lia.
+Qed.
+
+(* atoiOrZero on a decimal numeral is its value (no int64 wrap below 2^63) *)
+Definition digits_text (ds : list Z) : bytes := map (fun d => d + 48) ds.
+Definition digits_value (ds : list Z) (acc : Z) : Z := fold_left (fun a d => a * 10 + d) ds acc.
+Definition digits_ok (ds : list Z) : Prop := Forall (fun d => 0 <= d <= 9) ds.
+
+Lemma digits_value_mono ds : forall acc, digits_ok ds -> 0 <= acc -> acc <= digits_value ds acc.
+Proof.
+  induction ds as [|d ds IH]; intros acc Hd Ha; cbn [digits_value fold_left]; [lia|].
+  inversion Hd; subst. specialize (IH (acc * 10 + d) ltac:(assumption) ltac:(lia)).
+  unfold digits_value in IH. lia.
+Qed.
+
+Lemma atoi_go_digits ds : forall acc, digits_ok ds -> 0 <= acc -> digits_value ds acc < 2 ^ 63 ->
+  atoi_go (digits_text ds) acc = digits_value ds acc.
+Proof.
+  induction ds as [|d ds IH]; intros acc Hd Ha Hv; [reflexivity|].
+  inversion Hd as [|? ? Hd0 Hds]; subst. cbn [digits_text map atoi_go].
+  replace ((d + 48 <? 48) || (57 <? d + 48)) with false by lia.
+  replace (d + 48 - 48) with d by lia.
+  cbn [digits_value fold_left] in Hv.
+  pose proof (digits_value_mono ds (acc * 10 + d) Hds ltac:(lia)) as Hm. unfold digits_value in Hm.
+  rewrite wrap_s_64_small by lia.
+  fold (digits_text ds). rewrite IH; [reflexivity|assumption|lia|exact Hv].
+Qed.
+
+Theorem atoi_decimal ds : digits_ok ds -> digits_value ds 0 < 2 ^ 63 ->
+  atoi_or_zero (digits_text ds) = digits_value ds 0.
+Proof. intros H1 H2. apply atoi_go_digits; [assumption|lia|assumption]. Qed.
+
+(* finished fields are never changed by the rest of the line *)
+Lemma rev_flush cur acc : exists x, rev (flush cur acc) = rev acc ++ x.
+Proof.
+  unfold flush. destruct cur.
+  - exists []. now rewrite app_nil_r.
+  - eexists. cbn [rev]. reflexivity.
+Qed.
+
+Lemma fields_aux_prefix s : forall k cur acc, exists tl, fields_aux s k cur acc = rev acc ++ tl.
+Proof.
+  induction s as [|b s IH]; intros k cur acc; cbn [fields_aux].
+  - apply rev_flush.
+  - destruct k as [|k]; [|apply IH].
+    destruct (space_len (b :: s)) as [|n]; [apply IH|].
+    destruct (IH n [] (flush cur acc)) as [tl ->]. destruct (rev_flush cur acc) as [x ->].
+    exists (x ++ tl). now rewrite app_assoc.
+Qed.
+
+Theorem v1_unknown_exact junk rest :
+  (junk = [] \/ exists j, junk = 32 :: j) -> ~ In 10 junk ->
+  zlen (v1_unknown junk) <= 256 ->
+  parse_proxy (v1_unknown junk ++ rest) = (Ok PLocal, rest).
+Proof.
+  intros HJ HN HL. unfold parse_proxy, v1_unknown in *.
+  rewrite <- app_assoc. rewrite parse_proxy_v1_prefix. unfold parse_v1.
+  replace (PROXY5 ++ (SP ++ UNKNOWN ++ junk ++ CRLF) ++ rest)
+    with ((PROXY5 ++ SP ++ UNKNOWN ++ junk ++ [13]) ++ 10 :: rest)
+    by (unfold CRLF; rewrite <- !app_assoc; reflexivity).
+  rewrite read_line_lf.
+  - cbn [rev app]. unfold parse_v1_line.
+    assert (exists tl, fields ((PROXY5 ++ SP ++ UNKNOWN ++ junk ++ [13]) ++ [10]) = PROXY5 :: UNKNOWN :: tl) as [tl ->].
+    { unfold fields. rewrite <- !app_assoc. rewrite (fields_aux_token_sp PROXY5) by reflexivity.
+      destruct HJ as [->|[j ->]].
+      - cbn [app]. eexists. reflexivity.
+      - change ((32 :: j) ++ [13] ++ [10]) with (SP ++ j ++ [13] ++ [10]).
+        rewrite (fields_aux_token_sp UNKNOWN (j ++ [13] ++ [10]) [PROXY5]) by reflexivity.
+        destruct (fields_aux_prefix (j ++ [13] ++ [10]) O [] [UNKNOWN; PROXY5]) as [tl ->]. eexists. reflexivity. }
+    reflexivity.
+  - rewrite !in_app_iff. unfold PROXY5, SP, UNKNOWN. cbn [In]. intuition lia.
+  - unfold zlen, CRLF in HL. rewrite !app_length in *. cbn [length] in *. lia.
+Qed.
